@@ -17,10 +17,14 @@ TECHNIQUE = ('Coq proof (Noll ordering: closed form = the code\'s list-building,
              'orthogonality on a bounded range; angular orthogonality over R with Coquelicot; zernike_coordinates: '
              'centroid origin for every array size) + execution of the extracted model (group ring Q(i)[C_L] for the '
              'azimuthal factor) against lentil.zernike / zernike_index / zernike_coordinates')
-LEVEL_TEXT = ('Theorems in coq/theories/Properties/C11.v: unbounded for the Noll bijection, the link from the code\'s '
-              'list-building to the closed form, the mode factorisation, the mask laws and the coordinate origin; '
-              'bounded (bound in the statement) for float = exact row (j <= 2*10^5), radial coefficients / R(1) = 1 '
-              '(n <= 40) and orthonormality (n <= 20). |Z| <= 1 is a numeric test only.')
+LEVEL_TEXT = ('15 theorems in coq/theories/Properties/C11.v. Unbounded: Noll closed form is a bijection onto {|m|<=n, n-|m| even} '
+              'ordered by n then |m| with even j <-> m>0, odd j <-> m<0; zernike_index (exact row, list-building, negative index) = '
+              'closed form, ValueError for j<1; mode = norm * R * azimuthal * mask in every commutative ring and Noll\'s formula on C; '
+              'zero outside the mask, support-only dependence; angular orthogonality (Riemann integrals, all m, m\'); '
+              'zernike_coordinates: origin = centroid of the support for every array size, rho = 1 at a farthest masked sample, '
+              'support-only. Bounded (bound in the statement): IEEE-double row formula = exact row for j <= 2*10^5 (PrimFloat); '
+              'radial coefficients = binomial form and R(1) = 1 for n <= 40; radial orthogonality as a Riemann integral and '
+              'orthonormality of the normalised modes (separated disk integral) for n <= 20 (j <= 231). |Z| <= 1 is a numeric test only.')
 LEVEL_NOTE = ('Trusted: Coq kernel + stdlib Reals/Coquelicot axioms (integrals), PrimFloat (IEEE double primitives of the '
               'kernel), extraction, harness; np.sqrt/np.cos/np.sin/np.angle and IEEE rounding of the radial sum are '
               'modelled not verified (conditioning-scaled tolerance in the tie). The unnormalised bound |Z| <= 1 and '
